@@ -24,17 +24,14 @@ Traces == Data.traces
 VARIABLES tid, l, ms, nv
 tvars == <<tid, l, ms, nv>>
 
-InitMs(init) ==
-  CASE init = "C03" -> [mgr |-> ("doc" :> MgrInit("")) @@ ("bun" :> MgrInit("doc")), handed |-> {}]
-
 TInit == \E t \in 1..Len(Traces) :
            /\ tid = t
            /\ l = Traces[t].from - 1
            /\ ms = RunF(InitMs(Traces[t].init), Traces[t].hist, Traces[t].from - 1)
            /\ nv = {}
 
-PropertyClauses(step) == C03Clauses(step)
-DriftClauses(r, step) == {M_Names(r.st, r.res, step)}
+PropertyClauses(step) == C03Clauses(step) \cup C05Clauses(step)
+DriftClauses(r, step) == {M_Names(r.st, r.res, step), M_Con(r.st, step), M_Exc(r, step)}
 
 Report(T, n, step, cls) ==
   /\ \A c \in cls : c.ok \/
